@@ -72,7 +72,9 @@ def emit(repo):
         seq.append(f"({s}, {int(incompat.value)}, {int(to_set.value)}, {int(to_clear.value)})")
     named = {"Transpose": Op.Transpose, "FullyConnected": Op.FullyConnected, "VarHandle": Op.VarHandle,
              "ReadVariable": Op.ReadVariable, "CallOnce": Op.CallOnce, "AvgPool": Op.AvgPool, "Const": Op.Const,
-             "Memcpy": Op.Memcpy, "Sigmoid": Op.Sigmoid, "Tanh": Op.Tanh, "Quantize": Op.Quantize}
+             "Memcpy": Op.Memcpy, "Sigmoid": Op.Sigmoid, "Tanh": Op.Tanh, "Quantize": Op.Quantize,
+             "Relu": Op.Relu, "Relu6": Op.Relu6, "ReluN1To1": Op.ReluN1To1, "Conv2DBias": Op.Conv2DBias, "MaxPool": Op.MaxPool,
+             "Placeholder": Op.Placeholder, "LUT": Op.LUT, "Add": Op.Add, "Reshape": Op.Reshape, "Softmax": Op.Softmax}
     defs = "\n".join(f"def {_camel(n)} : List Nat := {lit(v)}" for n, v in sets.items())
     flagdefs = "\n".join(f"def flag{n} : Nat := {v}" for n, v in flags)
     nameddefs = "\n".join(f"def op{n} : Nat := {idx[o]}" for n, o in named.items())
